@@ -771,16 +771,23 @@ func vnCrafted(res *vResult, decs map[string]vnDecoder) {
 		// a huge declared LENGTH of the first element, and a huge declared COUNT of elements (below every constant cap a
 		// decoder may have: what bounds the work is the number of bytes received)
 		var inputs [][]byte
+		what := map[string]string{}
 		for _, head := range [][]byte{{2, 0, 64, 0}, {2, 0, 0, 1}} {
-			inputs = append(inputs, append(append([]byte{4}, head...), 1, 2, 3))
+			in := append(append([]byte{4}, head...), 1, 2, 3)
+			inputs = append(inputs, in)
+			what[string(in)] = "declared-length"
 		}
 		for _, count := range [][]byte{{2, 0, 0, 4}, {2, 0, 0, 1}, {2, 0, 64, 0}, {254, 255, 255, 3}} {
-			inputs = append(inputs, append([]byte{}, count...), append(append([]byte{}, count...), 4, 9), append(append([]byte{}, count...), 4, 9, 4, 9, 4, 9, 4, 9))
+			for _, in := range [][]byte{append([]byte{}, count...), append(append([]byte{}, count...), 4, 9), append(append([]byte{}, count...), 4, 9, 4, 9, 4, 9, 4, 9)} {
+				inputs = append(inputs, in)
+				what[string(in)] = "declared-count"
+			}
 		}
 		for _, b := range inputs {
+			ty := ty + "/" + what[string(b)]
 			raw := json.RawMessage(vJSON([]any{map[string]any{"o": map[string]any{"op": "crafted", "ty": ty, "b": b}}}))
 			res.Case("crafted/"+ty, vHex(b))
-			m, err, pm, to, alloc := vnGuarded(decs[ty].decode, b)
+			m, err, pm, to, alloc := vnGuarded(decs[strings.SplitN(ty, "/", 2)[0]].decode, b)
 			res.Cmp()
 			switch {
 			case to || pm != "":
